@@ -412,8 +412,10 @@ def gen_flat(rng, long_rate=0.02):
 
 def fault(rng, lines):
     """a statement that raises (or may raise) an error"""
-    r = rng.randrange(14)
+    r = rng.randrange(15)
     bad = rng.choice(lines) + 5 if lines else 5
+    if r == 14:
+        return read_stmt(rng)
     if r < 4:
         c = rng.choice(ERRCODES) if rng.random() < 0.8 else rng.choice([0, 256, 300, -1, 40000])
         return ['ERR', c]
@@ -436,6 +438,17 @@ def fault(rng, lines):
     if r == 12:
         return ['ON', rng.choice([256, -1, 300, 40000]), rng.choice([0, 1]), [rng.choice(lines or [10])]]
     return ['F', 4, rng.choice([32767, 32766]), 32767, rng.choice([1, 2])]
+
+
+DATA_POOL = [0, 1, 2, 3, 7, -1, -5, 255, 32767, -32768, 32768, 99999, -40000, 65536, 10]
+
+
+def data_stmt(rng):
+    return ['DT', [rng.choice(DATA_POOL) for _ in range(rng.choice([1, 2, 2, 3, 4]))]]
+
+
+def read_stmt(rng):
+    return ['RD', [rng.choice(DATAVARS) for _ in range(rng.choice([1, 1, 2, 3]))]]
 
 
 def trap_stmt(rng, lines):
@@ -494,7 +507,7 @@ def gen_trap_prog(rng):
     body_lines = [20 + 10 * i for i in range(nbody)]
     sub_lines = [500 + 100 * i for i in range(rng.choice([0, 0, 1, 2]))]
     h_lines = [900] if rng.random() < 0.85 else [900, 950]
-    lines = [10] + body_lines + [400] + sub_lines + h_lines
+    lines = [10] + body_lines + [400] + sub_lines + h_lines     # (450, 460: DATA lines, when present)
     prog = [['L', 10]]
     r = rng.random()
     if r < 0.85:
@@ -506,8 +519,17 @@ def gen_trap_prog(rng):
     if rng.random() < 0.3:
         prog.append(['=', rng.choice(DATAVARS), small(rng)])
 
+    with_data = rng.random() < 0.45
+
     def filler():
         r = rng.random()
+        if with_data and r < 0.3:
+            rr = rng.random()
+            if rr < 0.7:
+                return read_stmt(rng)
+            if rr < 0.85:
+                return ['RS', rng.choice([None, None, rng.choice(lines), 450, rng.choice(lines) + 5])]
+            return data_stmt(rng)
         if r < 0.4:
             return ['P', expr(rng, 1, DATAVARS)]
         if r < 0.6:
@@ -552,6 +574,13 @@ def gen_trap_prog(rng):
     prog += [['L', 400], ['P', 400]]
     if rng.random() < 0.9:
         prog.append(['END'])
+    if with_data:
+        # the DATA live on lines of their own, away from the READ statements
+        prog += [['L', 450], data_stmt(rng)]
+        if rng.random() < 0.4:
+            prog += [data_stmt(rng)]
+        if rng.random() < 0.4:
+            prog += [['L', 460], data_stmt(rng)]
     for n in sub_lines:
         prog.append(['L', n])
         prog += line_body(3)
@@ -640,6 +669,10 @@ def gen_trap_session(rng):
                 cmds.append(gen_direct(rng, lines, h_lines, sub_lines))
             else:
                 cmds.append(None)
+        if rng.random() < 0.25:
+            # a division before ON ERROR GOTO is reached, and RUN again: soft both times (RUN resets the switch)
+            prog = [prog[0], ['P', ['\\', rng.choice([1, -7, 5]), V(rng.choice(DATAVARS))]]] + prog[1:]
+            cmds.append(None)
         if accept_session(rng, prog, cmds):
             return {'k': 'flat', 'prog': prog, 'cmds': cmds}
     return {'k': 'flat', 'prog': [['L', 10], ['RES', 'S']], 'cmds': [None, [['P', 'ERR']]]}
